@@ -98,6 +98,10 @@ func monRawClient(prop string) Monitor {
 		if tr.Deadlock != "" {
 			add("C09", "goroutines_blocked_at_exit", tr.Steps, "%s", tr.Deadlock)
 		}
+		// --- no bloat: memory follows the data that arrived, never the size a peer merely announced
+		if tr.AllocBytes > allocBound {
+			add("C09", "announced_size_buffered", tr.Steps, "the run allocated %d MiB of heap although the script carries less than 1 MiB of data (largest announced message size: %d MiB)", tr.AllocBytes>>20, maxAnnounced(raw.Frames)>>20)
+		}
 		// --- tunnel-level vs stream-level outcome
 		endedEarly := tun.ServeReturned >= 0 && tun.ServeReturned < hangup
 		switch {
@@ -281,6 +285,16 @@ func tlIdxOnWire(raw *Raw, tr *Trace, scriptIdx int) int {
 
 func wireKind(f RawFrame) string { return f.Kind }
 
+func maxAnnounced(fs []RawFrame) uint64 {
+	var m uint64
+	for _, f := range fs {
+		if f.Kind == "msg" && uint64(f.Size) > m {
+			m = uint64(f.Size)
+		}
+	}
+	return m
+}
+
 func containsStr(ss []string, s string) bool {
 	for _, x := range ss {
 		if x == s {
@@ -333,6 +347,16 @@ func labelsRaw(c *Case, tr *Trace) []string {
 		for l := range tr.Labels {
 			ls = append(ls, l)
 		}
+	}
+	switch {
+	case tr.AllocBytes < 4<<20:
+		ls = append(ls, "alloc<4MiB")
+	case tr.AllocBytes < 16<<20:
+		ls = append(ls, "alloc<16MiB")
+	case tr.AllocBytes < 48<<20:
+		ls = append(ls, "alloc<48MiB")
+	default:
+		ls = append(ls, "alloc>=48MiB")
 	}
 	return ls
 }
